@@ -1,11 +1,13 @@
 package main
 
 import (
+	"bufio"
 	"bytes"
 	"errors"
 	"fmt"
 	"io"
 	"math"
+	"os"
 	"runtime"
 	"strings"
 	"sync"
@@ -241,6 +243,9 @@ func (w *limitWriter) Write(p []byte) (int, error) {
 }
 
 func legC12(e *Engine) []Violation {
+	if os.Getenv("VERIF_ONLY_BUFIO") != "" {
+		return bufioCorrespondence(e)
+	}
 	ncase := 8
 	if e.tier == "thorough" {
 		ncase = 80
@@ -364,7 +369,81 @@ func legC12(e *Engine) []Violation {
 	e.rep.Evaluations = int(points)
 	e.rep.Distinct = int(distinct)
 	e.count("fault-points", int(points))
+	vs = append(vs, bufioCorrespondence(e)...)
 	return vs
+}
+
+// bufioCorrespondence: the Lean model of bufio.Writer + Merger.WriteTo's plumbing against Go's
+// real bufio on random write scripts, buffer sizes and failure points (a third-party law of
+// DESIGN.md 2.3, sampled).
+func bufioCorrespondence(e *Engine) []Violation {
+	n := 400
+	if e.tier == "thorough" {
+		n = 6000
+	}
+	c := &Case{ID: caseID("C12bufio", e.seed, 0)}
+	var want []string
+	r := NewRng(e.seed, "C12-bufio", 0)
+	for i := 0; i < n; i++ {
+		size := []int{1, 2, 3, 7, 16, 64, 4096}[r.Intn(7)]
+		nw := r.Range(0, 8)
+		var lens []int
+		total := 0
+		for j := 0; j < nw; j++ {
+			l := r.Intn(12)
+			if r.Chance(1, 6) {
+				l = r.Intn(3*size + 2)
+			}
+			if l > 9000 {
+				l = 9000
+			}
+			lens = append(lens, l)
+			total += l
+		}
+		k := r.Intn(total + 3)
+		if r.Chance(1, 4) {
+			k = total + 10
+		}
+		sink := &limitWriter{limit: k, closeAt: -1, ch: make(chan struct{})}
+		bw := bufio.NewWriterSize(sink, size)
+		failed := false
+		count := 0
+		for _, l := range lens {
+			m, err := bw.Write(make([]byte, l))
+			count += m
+			if err != nil {
+				failed = true
+				break
+			}
+		}
+		if !failed {
+			if err := bw.Flush(); err != nil {
+				failed = true
+			}
+		}
+		res := fmt.Sprintf("ok n=%d", count)
+		if failed {
+			res = "err"
+		}
+		c.Queries = append(c.Queries, Query{"bufio", itoa(size), itoa(k), intList(lens)})
+		want = append(want, fmt.Sprintf("r %s %d %s calls=%d got=%d", c.ID, i, res, sink.calls, sink.buf.Len()))
+	}
+	got, err := e.runModel("spec", []*Case{c})
+	if err != nil {
+		return []Violation{{Prop: e.prop, Kind: "framework", Detail: err.Error()}}
+	}
+	e.count("bufio-model-scripts", n)
+	if d := firstDiff(want, got[c.ID]); d >= 0 {
+		var y string
+		if d < len(got[c.ID]) {
+			y = got[c.ID][d]
+		}
+		cc := &Case{ID: c.ID, Queries: []Query{c.Queries[d]}}
+		return []Violation{{Prop: e.prop, CaseID: c.ID, Kind: "obligation", Case: cc,
+			Detail: fmt.Sprintf("the Lean model of bufio.Writer / Merger.WriteTo disagrees with Go's bufio on `%s`\n  go:    %s\n  model: %s", strings.Join(c.Queries[d], " "), want[d], y)}}
+	}
+	e.rep.ModelAgree += n
+	return nil
 }
 
 // ---------- C14: builder determinism ----------
